@@ -72,7 +72,7 @@ def exn_code(e):
 class Pair:
     """In-process client/server Transport pair over tests/_loop.LoopSocket with recording packetizers."""
 
-    def __init__(self, client_srt=False, auth=True, hexdump=False):
+    def __init__(self, client_srt=False, auth=True, hexdump=False, cipher=None, mac=None, compress=False):
         import paramiko
         from paramiko.packet import Packetizer
         from paramiko.transport import Transport, ServiceRequestingTransport
@@ -115,6 +115,15 @@ class Pair:
         self.tc = ccls(a, packetizer_class=RecP)
         self.ts = Transport(b, packetizer_class=RecP)
         self.ts.add_server_key(_host_key())
+        self.algos = {"cipher": cipher, "mac": mac, "compress": compress}
+        for t in (self.tc, self.ts):
+            opts = t.get_security_options()
+            if cipher:
+                opts.ciphers = (cipher,)
+            if mac:
+                opts.digests = (mac,)
+            if compress:
+                t.use_compression(True)
         self.hexdump = hexdump
         if hexdump:
             # every logging-dependent path on: packet hexdump in the packetizers, DEBUG level on the logger
@@ -265,7 +274,7 @@ def next_rx(t, timeout):
 def probe(ctx, pair, sender, receiver, role, ptype, payload, sentinel, fails):
     """Send one unhandled packet; returns (seq, observed canonical outcome) and runs the oracle."""
     case = {"receiver": role, "state": list(state_of(receiver)), "ptype": ptype, "payload": payload,
-            "hexdump": pair.hexdump, "rekey_in_progress": False}
+            "hexdump": pair.hexdump, "rekey_in_progress": False, "algos": pair.algos}
     pair.drain()
     try:
         seq = send_raw(sender, ptype, payload)
@@ -340,16 +349,41 @@ def report(ctx, fails):
         ctx.fail(key, what, case=case, observed=observed)
 
 
-def sweep(ctx, pair, role, npay, cases_dispatch, model_sets):
-    """Exhaustive sweep of the unhandled types of one receiver; returns False if it died."""
+def wrong_direction(receiver):
+    """Types that only ever travel towards the OTHER role (RFC 4253 s.10, RFC 4252, RFC 4256): the receiver
+    has no business handling them, whatever its tables say - independent of the live tables and the model."""
+    from paramiko import common as c
+    from paramiko.transport import ServiceRequestingTransport
+    if receiver.server_mode:
+        out = [c.MSG_USERAUTH_FAILURE, c.MSG_USERAUTH_SUCCESS, c.MSG_USERAUTH_BANNER, c.MSG_USERAUTH_INFO_REQUEST]
+        if not isinstance(receiver, ServiceRequestingTransport):
+            out.append(c.MSG_SERVICE_ACCEPT)
+        return out
+    return [c.MSG_SERVICE_REQUEST, c.MSG_USERAUTH_REQUEST, c.MSG_USERAUTH_INFO_RESPONSE]
+
+
+def sweep(ctx, pair, role, npay, cases_dispatch, model_sets, limit=None):
+    """Exhaustive sweep of the unhandled types of one receiver; returns False if it died.
+    limit=N: a sample of N types (always with unnamed, named, wrong-direction types and type 3)."""
     rng = ctx.rng
     receiver = pair.ts if role == "server" else pair.tc
     sender = pair.tc if role == "server" else pair.ts
     st = state_of(receiver)
     types = live_unhandled(receiver)
     model_sets.append((st, types))
+    wrong = [p for p in wrong_direction(receiver) if p not in types]
+    if wrong:
+        ctx.fail("role-inappropriate-type-handled",
+                 "a message type that only travels towards the other role has a handler in this role's tables "
+                 "(it must be answered with UNIMPLEMENTED)", case={"receiver": role, "state": list(st),
+                                                                  "ptypes": wrong, "algos": pair.algos})
+    types = types + wrong          # ... and they are sent all the same: the reply must still be UNIMPLEMENTED
+    if limit is not None:
+        must = wrong_direction(receiver) + [3]
+        rest = [p for p in types if p not in must]
+        types = must + rng.sample(rest, max(0, min(len(rest), limit - len(must))))
     names = pair.paramiko.common.MSG_NAMES
-    sentinel = [p for p in types if p in names and p != 3][0]
+    sentinel = [p for p in types if p in names and p != 3 and p not in wrong][0]
     fails = []
     ok = True
     order = list(types)
@@ -362,7 +396,8 @@ def sweep(ctx, pair, role, npay, cases_dispatch, model_sets):
                       kind="%s-%s" % (role, "unnamed" if p not in names else ("type3" if p == 3 else "named")))
             if seq is not None:
                 cases_dispatch.append(((st[0], st[1], st[2], st[3], False, p, seq), obs,
-                                       {"receiver": role, "ptype": p, "payload": payload, "hexdump": pair.hexdump}))
+                                       {"receiver": role, "ptype": p, "payload": payload, "hexdump": pair.hexdump,
+                                        "algos": pair.algos}))
             if obs[0] == 0 or any(f[0] == "unimplemented-answered" for f in fails):
                 ok = False      # dead, or two paramiko ends now bounce UNIMPLEMENTED forever: stop this configuration
                 break
@@ -410,7 +445,8 @@ def burst(ctx, pair, role, n, cases_stream, wrap=False):
         flat += [rep[0]] + list(rep[2])
     extra = next_rx(sender, 0.2)
     alive = receiver.is_active()
-    case = {"receiver": role, "state": list(st), "seq0": seq0, "ptypes": pkts, "hexdump": pair.hexdump}
+    case = {"receiver": role, "state": list(st), "seq0": seq0, "ptypes": pkts, "hexdump": pair.hexdump,
+            "algos": pair.algos}
     ctx.count(("burst", role, st, seq0, tuple(pkts)), nontrivial=True, kind="burst-wrap" if wrap else "burst")
     if got != [(3, s) for s in want] or extra is not None or not alive:
         ctx.fail("stream-replies" if alive else "unhandled-type-kills-transport",
@@ -570,6 +606,65 @@ def run_config(ctx, label, client_srt, auth, npay, cases_dispatch, cases_stream,
         pair.close()
 
 
+def algorithm_variants(ctx):
+    """(cipher, mac, compress) combinations from the live tables: every cipher and every MAC (thorough), or a
+    seed-rotated selection that always contains an AEAD cipher, an encrypt-then-MAC digest and compression."""
+    from paramiko.transport import Transport
+    ciphers = sorted(Transport._cipher_info)
+    macs = sorted(Transport._mac_info)
+    aead = [c for c in ciphers if "gcm" in c or "poly1305" in c]
+    plain = [c for c in ciphers if c not in aead]
+    etm = [m for m in macs if "etm" in m]
+    other = [m for m in macs if m not in etm]
+    if ctx.thorough:
+        out = [(c, None, False) for c in ciphers] + [(plain[i % len(plain)], m, False) for i, m in enumerate(macs)]
+        out += [(aead[0], None, True), (plain[0], etm[0], True)] if aead and etm else []
+        return out
+    k = ctx.seed
+    out = []
+    if aead:
+        out.append((aead[k % len(aead)], None, k % 2 == 1))
+    if etm:
+        out.append((plain[k % len(plain)], etm[k % len(etm)], k % 2 == 0))
+    out.append((plain[(k + 3) % len(plain)], other[k % len(other)], False))
+    return out
+
+
+def run_variants(ctx, npay, cases_dispatch, cases_stream, model_sets):
+    """Non-default negotiated algorithms; two pairs are alive at a time and the earlier one is used again after
+    the later one has been swept (state shared between objects of a class would show there)."""
+    import paramiko
+    prev = None
+    try:
+        for cipher, mac, compress in algorithm_variants(ctx):
+            label = "algos:%s/%s/%s" % (cipher, mac or "default", "zlib" if compress else "none")
+            try:
+                pair = Pair(cipher=cipher, mac=mac, compress=compress)
+            except paramiko.SSHException as e:
+                ctx.notes.append("%s: could not be negotiated here (%s)" % (label, e))
+                continue
+            neg = (pair.tc.remote_cipher, pair.tc.remote_mac, pair.tc.remote_compression)
+            if pair.tc.remote_cipher != cipher or (compress and pair.tc.remote_compression == "none"):
+                ctx.notes.append("%s: negotiated %r instead" % (label, neg))
+            ok = True
+            for role in ("server", "client"):
+                ok = ok and sweep(ctx, pair, role, 1, cases_dispatch, model_sets, limit=40 if ctx.thorough else 16)
+                ok = ok and burst(ctx, pair, role, 12, cases_stream)
+                ok = ok and burst(ctx, pair, role, 12, cases_stream, wrap=True)
+            if ok:
+                followup(ctx, pair, label)
+            if prev is not None:
+                for role in ("server", "client"):
+                    if prev.tc.is_active() and prev.ts.is_active():
+                        sweep(ctx, prev, role, 1, cases_dispatch, model_sets, limit=8)
+                prev.close()
+            prev = pair
+            ctx.log("variant %s: %s" % (label, "ok" if ok else "FAILED"))
+    finally:
+        if prev is not None:
+            prev.close()
+
+
 def compare_with_model(ctx, cases_dispatch, cases_stream, model_sets):
     if ctx.proof is not None and ctx.proof.model_ok:
         uniq = []
@@ -612,7 +707,10 @@ def run(ctx):
                 "switched on) and both receiving roles, every type 0..255 that no live handler "
                 "table takes is sent by the raw peer with seeded random payloads (empty, short, channel-id-like, "
                 "string-like, 0xff runs, long), in shuffled order; plus bursts of 12-40 packets incl. across the "
-                "2^32 sequence wrap; plus, in both roles, 24 (quick) / all (thorough) unhandled types delivered while the "
+                "2^32 sequence wrap; the one-directional types of the other role are always sent too; non-default "
+                "negotiated algorithms from the live tables (every cipher and MAC in thorough; a seed-rotated AEAD "
+                "cipher, an ETM MAC and zlib in quick) with two pairs alive at once and the earlier pair probed "
+                "again after the later one; plus, in both roles, 24 (quick) / all (thorough) unhandled types delivered while the "
                 "receiver's own re-key is in progress (own KEXINIT sent, peer's withheld), after which the re-key "
                 "must complete and the channel must still carry data; a case = (state, type, payload) and every case is non-trivial (it reaches the "
                 "fallback branch)")
@@ -637,6 +735,11 @@ def run(ctx):
             raise v
         if st == "hang":
             ctx.fail("sweep-hang", "the sweep did not finish (a blocking call never returned)", case={"config": label})
+    st, v = with_watchdog(lambda: run_variants(ctx, npay, cases_dispatch, cases_stream, model_sets), 240)
+    if st == "exc":
+        raise v
+    if st == "hang":
+        ctx.fail("sweep-hang", "the algorithm-variant sweep did not finish", case={"config": "variants"})
     # ---- correspondence with the model (guarded: a translator / build failure must not hide the oracle) ----
     try:
         compare_with_model(ctx, cases_dispatch, cases_stream, model_sets)
@@ -656,8 +759,10 @@ def replay(ctx, rep):
         return run(ctx)
     role = case["receiver"]
     stt = case.get("state", [role == "server", True, 1, False])
+    al = case.get("algos") or {}
     pair = Pair(client_srt=bool(stt[3]) if role == "client" else False, auth=bool(stt[1]),
-                hexdump=bool(case.get("hexdump")))
+                hexdump=bool(case.get("hexdump")), cipher=al.get("cipher"), mac=al.get("mac"),
+                compress=bool(al.get("compress")))
     try:
         receiver = pair.ts if role == "server" else pair.tc
         sender = pair.tc if role == "server" else pair.ts
@@ -666,7 +771,8 @@ def replay(ctx, rep):
             rekey_window(ctx, pair, role, [(case["ptype"], payload), (case["ptype"], payload)], [])
             return
         names = pair.paramiko.common.MSG_NAMES
-        sentinel = [p for p in live_unhandled(receiver) if p in names and p != 3][0]
+        sentinel = [p for p in live_unhandled(receiver) if p in names and p != 3
+                    and p not in wrong_direction(receiver)][0]
         fails = []
         for _ in range(2):
             probe(ctx, pair, sender, receiver, role, case["ptype"], payload, sentinel, fails)
